@@ -18,6 +18,13 @@ def gen(tier, rng, harness=None):
     lines = []
     for t in modprops.corpus_texts():
         lines.append("!mod.closure - %s" % hx(t))
+    # type definitions whose body is another named type (`%a = type %b`) next to definitions that mention them: translated in map order, so each text is walked
+    # twelve times — every use of a named type is an object the module lists, under every order
+    for t in ("%a = type %b\n%b = type { i32 }\n%c = type { %a }\n@g = global %c zeroinitializer\n@h = global %a zeroinitializer\n",
+              "%b = type { i32, %a* }\n%a = type %b\n@g = global %a* null\n",
+              "%z = type %y\n%y = type %x\n%x = type { %z*, i8 }\n%w = type { %z, %y, %x }\n@g = global %w zeroinitializer\n"):
+        for _ in range(12):
+            lines.append("!mod.closure - %s" % hx(t))
     # systematic: every use-site kind of one function body under namings that make names and IDs confusable (vlib/localgen.py)
     for kind, exp, text, sk in localgen.cases(rng, 20 if tier == "quick" else 400):
         if exp == "ok":
